@@ -117,6 +117,9 @@ def k7scen (t : Tokens) : String :=
   | "rename-samedir-while-last-ref-dropped" => "renamed=1 alive=1"
   | "rename-dir-while-child-closing" => "renamed=1 uac=0"
   | "rename-of-an-entry-whose-last-fid-is-closing" => "renamed=1 leaks= dbl= uac="
+  | "cut-with-a-walk-in-the-backend" => "returned=1 leaks= dbl= uac="
+  | "two-tclunk-one-fid" => "rclunk=1 ebadf=1"
+  | "refused-unlink-keeps-the-path-node" => "overlapped=0"
   | "clunk-races-inflight-read" => "clunked=1 closed_early=0 closed_after=1 uac=0"
   | "cut-with-request-in-backend" => "returned_early=0 closed_early=0 returned=1 leaks= dbl= uac="
   | "panic-in-unlinkat-keeps-serving" => "efault=1 child=1 again=1"
